@@ -9,6 +9,7 @@ import (
 	"github.com/DOSNetwork/core/log"
 	"github.com/DOSNetwork/core/p2p"
 	"github.com/DOSNetwork/core/suites"
+	"github.com/dedis/kyber"
 )
 
 // Hooks for the verification harness (/verif). Built only with -tags verif.
@@ -40,4 +41,9 @@ func VerifMergeErrors(logger log.Logger, sessionID string, cs ...chan error) cha
 // VerifFanOut exposes fanOut.
 func VerifFanOut(ctx context.Context, ch chan interface{}, size int) []chan interface{} {
 	return fanOut(ctx, ch, size)
+}
+
+// VerifDealerCoeffs returns the coefficients of the generator's own secret polynomial.
+func VerifDealerCoeffs(d *DistKeyGenerator) []kyber.Scalar {
+	return d.dealer.PrivatePoly().Coefficients()
 }
